@@ -960,6 +960,288 @@ def C08(tier, seed, st):
     return res
 
 
+# ---------------------------------------------------------------- the library contract (K stream) and seeds (S stream)
+def u(*cps):
+    return "".join(chr(c) for c in cps)
+
+
+def k_strings(rng, tier):
+    q = tier == "quick"
+    out = []
+    marks = [0x301, 0x316, 0x327, 0x323, 0x308, 0x334, 0x5B0, 0x64B, 0x93C, 0x1161, 0x11A8, 0x3099, 0xF71, 0x1DC0, 0x20D0]
+    for k in (1, 2, 29, 30, 31, 32, 33, 60, 61, 62, 100):
+        for mk in marks[:6 if q else len(marks)]:
+            out.append("a" + chr(mk) * k)
+            out.append(chr(mk) * k + "b")
+            out.append("x " + "e" + chr(mk) * k + " y " + "e" + chr(mk) * (k // 2))
+        out.append("a" + "".join(chr(rng.choice(marks[:5])) for _ in range(k)))
+        out.append(chr(0x1100) + chr(0x1161) * k)
+        out.append("가" + chr(0x11A8) * k)
+    out += gens.nfc_like_pool()
+    for _ in range(150 if q else 4000):
+        n = rng.randrange(1, 12)
+        cps = []
+        for _ in range(n):
+            r = rng.random()
+            if r < 0.3:
+                cps.append(rng.randrange(0x20, 0x7F))
+            elif r < 0.5:
+                cps.append(rng.choice(marks))
+            elif r < 0.7:
+                cps.append(rng.randrange(0xA0, 0x3100))
+            elif r < 0.8:
+                cps.append(rng.randrange(0xAC00, 0xD7A4))
+            elif r < 0.9:
+                cps.append(rng.randrange(0xF900, 0xFFF0))
+            else:
+                c = rng.randrange(0x10000, 0x2FA20)
+                cps.append(c)
+        out.append(u(*[c for c in cps if not 0xD800 <= c <= 0xDFFF]))
+    bs = [x.encode() for x in out]
+    # invalid UTF-8 mixed with text
+    for _ in range(40 if q else 1000):
+        b = bytearray(rng.choice(bs))
+        for _ in range(rng.randrange(1, 4)):
+            b.insert(rng.randrange(len(b) + 1), rng.choice([0xFF, 0xC0, 0x80, 0xED, 0xA0, 0xF5, 0xE3, 0xCC]))
+        bs.append(bytes(b))
+    # list words and sentences
+    for lang in LANGS:
+        t = gens.table(lang)
+        for _ in range(5 if q else 100):
+            bs.append(t[rng.randrange(2048)])
+        bs.append(gens.sentence(lang, gens.indices_of_entropy(rng.randbytes(16))))
+    # singleton code points
+    cps = rng.sample(range(0x110000), 1500 if q else 60000) if q or True else []
+    for c in cps:
+        if not 0xD800 <= c <= 0xDFFF:
+            bs.append(chr(c).encode())
+    return bs
+
+
+def check_K(res, rng, tier):
+    """re-validates the contract LC1-LC3 that the theorems assume of norm.NFKD.String, against the Gallina NFKD"""
+    bs = k_strings(rng, tier)
+    lines = ["K " + hx(b) for b in bs]
+    impl = common.run_impl(lines)
+    spec = common.run_model(lines, "spec")
+    nx = 0
+    for ln, b, i, sp in zip(lines, bs, impl, spec):
+        res.evaluations += 1
+        nf, _, xs = sp.rpartition(" xs=")
+        ib, nb = unhx(i), unhx(nf)
+        if xs == "1":
+            res.count("K/xsafe")
+            if ib != nb:
+                res.corr_break(stream="K", case=ln, impl=i, model=sp, why="library contract LC1: norm.NFKD.String differs from UAX #15 NFKD (pinned Unicode 15 table) on an xsafe string")
+        else:
+            nx += 1
+            res.count("K/not-xsafe")
+            if bytes([0xCD, 0x8F]) not in ib:
+                res.corr_break(stream="K", case=ln, impl=i, model=sp, why="library contract LC2: output for a non-xsafe string does not contain U+034F")
+        if ib.count(b" ") != nb.count(b" "):
+            res.corr_break(stream="K", case=ln, impl=i, model=sp, why="library contract LC3: number of 0x20 bytes differs")
+        if ib != b:
+            res.nontrivial.add(ln)
+    res.streams["K"] = res.streams.get("K", 0) + len(lines)
+    res.sample({"case": lines[0], "impl": impl[0], "spec": spec[0]})
+    return nx
+
+
+def pbk(pw, salt, it=2048, n=64):
+    return hashlib.pbkdf2_hmac("sha512", pw, salt, it, n).hex()
+
+
+F3_M = b"x"
+F3_P = b"a" + u(0x301).encode() * 31
+F3_PAIR = (u(0x301).encode() * 30 + u(0x316).encode(), u(0x316).encode() + u(0x301).encode() * 30)
+
+
+def s_inputs(rng, tier):
+    q = tier == "quick"
+    pairs = []
+    eng = gens.sentence("English", gens.indices_of_entropy(bytes(16)))
+    pairs += [(b"", b""), (eng, b""), (eng, b"TREZOR"), (b"", b"x"), (F3_M, F3_P)]
+    # lengths around the HMAC block (128 bytes) for the password and for the salt ("mnemonic" + p)
+    for n in list(range(118, 140)) + ([0, 1, 63, 64, 65, 191, 192, 193, 255, 256, 257, 300, 1000] if q else list(range(0, 118)) + list(range(140, 400))):
+        pairs.append((bytes(rng.randrange(0x21, 0x7F) for _ in range(n)), bytes(rng.randrange(0x21, 0x7F) for _ in range(rng.choice((0, 5, n))))))
+        pairs.append((b"m", bytes(rng.randrange(0x21, 0x7F) for _ in range(max(0, n - 8)))))
+    # valid sentences of exactly-N-byte NFKD length around 128, all scripts
+    for lang in LANGS:
+        for n in WORD_COUNTS:
+            idx = gens.indices_of_entropy(rng.randbytes(n // 3 * 4))
+            pairs.append((gens.sentence(lang, idx), rng.choice([b"", b"pw", "パスワード".encode(), "é".encode()])))
+    for _ in range(30 if q else 600):
+        n = rng.choice((12, 15, 18))
+        for _ in range(200):
+            idx = gens.indices_of_entropy(rng.randbytes(n // 3 * 4))
+            sent = gens.sentence("English", idx)
+            if len(sent) in (126, 127, 128, 129, 130):
+                pairs.append((sent, b""))
+                break
+    # whitespace-damaged mnemonics: the seed function must not re-tokenise
+    idx = gens.indices_of_entropy(rng.randbytes(16))
+    for tag, b in gens.damaged(rng, "English", idx):
+        if tag.startswith("ws-"):
+            pairs.append((b, b""))
+    pairs += [(b" ", b""), (b"  a  b ", b" "), ("　".encode(), b""), (b"a\tb", b"c\nd"), (b"a b", b"a  b")]
+    # unicode: compatibility characters, reordering marks, marks at the start of the passphrase
+    pool = [x.encode() for x in gens.nfc_like_pool()]
+    for _ in range(40 if q else 800):
+        m = b" ".join(rng.choice(pool) for _ in range(rng.randrange(1, 6)))
+        p_ = b"".join(rng.choice(pool) for _ in range(rng.randrange(0, 4)))
+        pairs.append((m, p_))
+    for k in (29, 30, 31):
+        pairs.append((b"e" + u(0x301).encode() * k, b""))
+        pairs.append((b"x", u(0x301).encode() * k))
+        pairs.append((b"x", u(0x316).encode() + u(0x301).encode() * (k - 1)))
+    # invalid UTF-8 (extra: the property speaks of valid UTF-8 only; the model covers all byte strings)
+    for _ in range(10 if q else 200):
+        pairs.append((rng.randbytes(rng.randrange(1, 40)), rng.randbytes(rng.randrange(0, 20))))
+    return pairs
+
+
+def run_S(res, pairs, pid):
+    """implementation seed vs PBKDF2 (hashlib) over the (password, salt) the specification derives with the Coq NFKD"""
+    lines = ["S %s %s" % (hx(m), hx(p_)) for m, p_ in pairs]
+    impl = common.run_impl(lines)
+    spec = common.run_model(lines, "spec")
+    model = common.run_model(lines, "model")
+    seeds = []
+    for ln, i, sp, md in zip(lines, impl, spec, model):
+        res.evaluations += 1
+        f = sp.split()
+        pw, salt, xs = unhx(f[1]), unhx(f[2]), f[5]
+        want = "seed " + pbk(pw, salt)
+        got = i.replace(" NOT-FRESH", "")
+        seeds.append((got, xs))
+        res.count("S/xsafe" if xs == "xs=1" else "S/not-xsafe")
+        res.nontrivial.add(ln)
+        if "NOT-FRESH" in i:
+            res.violation(stream="S", case=ln, impl=i, model=md, spec=want, why="MnemonicToSeed returned a slice that is not fresh: mutating it changed a later result")
+        elif len(unhx(got[5:])) != 64:
+            res.violation(stream="S", case=ln, impl=i, model=md, spec=want, why="seed is not 64 bytes")
+        elif got != want:
+            if xs == "xs=0":
+                res.known["id=F3-xtext-stream-safe class=not-xsafe MnemonicToSeed differs from PBKDF2 over true NFKD when an argument's NFKD form has a run of more than 30 modifiers (stream-safe NFKD of golang.org/x/text)"] = ln
+            else:
+                res.violation(stream="S", case=ln, impl=i, model=md, spec=want,
+                              why="MnemonicToSeed differs from PBKDF2-HMAC-SHA512(NFKD(m), \"mnemonic\"+NFKD(p), 2048, 64)")
+        elif md != sp:
+            res.corr_break(stream="S", case=ln, impl=i, model=md, spec=sp, why="model's PBKDF2 arguments differ from the specification's")
+    res.streams["S"] = res.streams.get("S", 0) + len(lines)
+    res.sample({"case": lines[2], "impl": impl[2], "spec_args": spec[2][:160]})
+    return seeds
+
+
+def check_crypto(res, rng, tier):
+    """the Gallina SHA-512 / HMAC / PBKDF2 against the real libraries (the model executes them; the seed theorem is stated over them)"""
+    q = tier == "quick"
+    lines = []
+    for n in [0, 1, 55, 56, 63, 64, 111, 112, 119, 120, 127, 128, 129, 239, 240, 255, 256, 257, 1000] + [rng.randrange(0, 600) for _ in range(20 if q else 400)]:
+        lines.append("H5 " + hx(rng.randbytes(n)))
+        lines.append("H " + hx(rng.randbytes(n)))
+    for kn in [0, 1, 20, 64, 127, 128, 129, 130, 131, 200, 300] + [rng.randrange(0, 300) for _ in range(10 if q else 300)]:
+        lines.append("M %s %s" % (hx(rng.randbytes(kn)), hx(rng.randbytes(rng.randrange(0, 200)))))
+    for c in (1, 2, 3, 10) if q else (1, 2, 3, 10, 100):
+        for kl in (64, 20, 65, 128):
+            lines.append("P %s %s %d %d" % (hx(rng.randbytes(rng.choice((0, 5, 128, 129, 200)))), hx(rng.randbytes(rng.randrange(0, 40))), c, kl))
+    a, b = common.run_impl(lines), common.run_model(lines, "model")
+    for ln, x, y in zip(lines, a, b):
+        res.evaluations += 1
+        res.count("crypto/" + ln.split()[0])
+        if x != y:
+            res.corr_break(stream=ln.split()[0], case=ln, impl=x, model=y, why="Gallina SHA-2/HMAC/PBKDF2 differs from the Go library")
+    res.streams["crypto"] = len(lines)
+
+
+def full_seeds(res, rng, tier):
+    """a few full 2048-iteration seeds evaluated by the extracted Gallina PBKDF2 itself (about 40 s each, in parallel)"""
+    cases = [(gens.sentence("English", gens.indices_of_entropy(bytes(16))), b"TREZOR")]
+    if tier != "quick":
+        cases += [(gens.sentence(l, gens.indices_of_entropy(rng.randbytes(16))), "é".encode()) for l in LANGS] + [(b"", b""), (rng.randbytes(200), rng.randbytes(150))]
+    lines = ["SF %s %s" % (hx(m), hx(p_)) for m, p_ in cases]
+    impl = common.run_impl(lines)
+    spec = common.run_model(lines, "spec", shards=len(lines))
+    for ln, i, sp in zip(lines, impl, spec):
+        res.evaluations += 1
+        res.count("S/full-2048-iterations-in-Coq-extraction")
+        if i.replace(" NOT-FRESH", "") != sp:
+            res.violation(stream="SF", case=ln, impl=i, model="", spec=sp, why="MnemonicToSeed differs from the specification's seed (evaluated by the extracted Gallina PBKDF2)")
+    res.streams["SF"] = len(lines)
+
+
+def C04(tier, seed, st):
+    res = Result("C04")
+    rng = random.Random(seed)
+    check_K(res, rng, tier)
+    check_crypto(res, rng, tier)
+    run_S(res, s_inputs(rng, tier), "C04")
+    full_seeds(res, rng, tier)
+    return res
+
+
+def C11(tier, seed, st):
+    res = Result("C11")
+    rng = random.Random(seed)
+    q = tier == "quick"
+    import unicodedata
+    check_K(res, rng, tier)
+    quads = []   # ((m1, p1), (m2, p2), tag)
+    quads.append(((b"x", F3_PAIR[0]), (b"x", F3_PAIR[1]), "f3-witness"))
+    for lang in LANGS:
+        t = gens.table(lang)
+        words = range(rng.randrange(16), 2048, 16) if q else range(2048)
+        for w in words:
+            sp_ = gens.spellings(t[w])
+            if not sp_:
+                continue
+            n = WORD_COUNTS[w % 5]
+            pos = (w * 5) % n
+            idx = gens.sentence_with_word(rng, lang, n, pos, w)
+            base = [t[i] for i in idx]
+            for form, v in sp_.items():
+                var = list(base)
+                var[pos] = v
+                quads.append(((b" ".join(base), b""), (b" ".join(var), b""), "word-" + form))
+        for n in WORD_COUNTS:
+            idx = gens.indices_of_entropy(rng.randbytes(n // 3 * 4))
+            a = gens.sentence(lang, idx, b" ")
+            for sepv in gens.EQUIV_SEPS:
+                quads.append(((a, b"pw"), (gens.sentence(lang, idx, sepv.encode()), b"pw"), "sep"))
+    pool = gens.nfc_like_pool()
+    for _ in range(60 if q else 1200):
+        m = " ".join(rng.choice(pool) for _ in range(rng.randrange(1, 5)))
+        p_ = "".join(rng.choice(pool) for _ in range(rng.randrange(0, 4)))
+        f1, f2 = rng.choice(("NFC", "NFD", "NFKC", "NFKD")), rng.choice(("NFC", "NFD", "NFKC", "NFKD"))
+        quads.append(((m.encode(), p_.encode()), (unicodedata.normalize(f1, m).encode(), unicodedata.normalize(f2, p_).encode()), "arbitrary"))
+        quads.append(((b"abc", p_.encode()), (b"abc", unicodedata.normalize(f2, p_).encode()), "passphrase-only"))
+    lines = []
+    for (m1, p1), (m2, p2), tag in quads:
+        lines += ["S %s %s" % (hx(m1), hx(p1)), "S %s %s" % (hx(m2), hx(p2))]
+    impl = common.run_impl(lines)
+    spec = common.run_model(lines, "spec")
+    for k, (a, b, tag) in enumerate(quads):
+        res.evaluations += 2
+        res.count("pair/" + tag)
+        sa, sb = spec[2 * k].split(), spec[2 * k + 1].split()
+        if sa[1:3] != sb[1:3]:
+            res.count("pair-not-equivalent")
+            continue
+        if a != b:
+            res.nontrivial.add(lines[2 * k + 1])
+        ia, ib = impl[2 * k].replace(" NOT-FRESH", ""), impl[2 * k + 1].replace(" NOT-FRESH", "")
+        want = "seed " + pbk(unhx(sa[1]), unhx(sa[2]))
+        if ia != ib or ia != want:
+            if sa[5] == "xs=0" or sb[5] == "xs=0":
+                res.known["id=F3-xtext-stream-safe class=not-xsafe two spellings with equal NFKD forms give different seeds when the NFKD form has a run of more than 30 modifiers (stream-safe NFKD of golang.org/x/text)"] = lines[2 * k]
+            else:
+                res.violation(stream="S", case=lines[2 * k + 1], other_case=lines[2 * k], impl=ib, impl_other=ia, model="", spec=want, tag=tag,
+                              why="two (mnemonic, passphrase) pairs with equal NFKD forms give different seeds" if ia != ib else "seed differs from the specification")
+    res.sample({"pair": [lines[2][:160], lines[3][:160]], "impl": [impl[2][:40], impl[3][:40]]})
+    res.streams["S"] = len(lines)
+    return res
+
+
 # ---------------------------------------------------------------- C07
 def C07(tier, seed, st):
     res = Result("C07")
@@ -1047,4 +1329,4 @@ def C07(tier, seed, st):
     return res
 
 
-CHECKS = {"C07": C07, "C08": C08, "C13": C13, "C14": C14, "C01": C01, "C02": C02, "C03": C03, "C05": C05, "C06": C06, "C09": C09, "C10": C10, "C15": C15, "C16": C16}
+CHECKS = {"C04": C04, "C11": C11, "C07": C07, "C08": C08, "C13": C13, "C14": C14, "C01": C01, "C02": C02, "C03": C03, "C05": C05, "C06": C06, "C09": C09, "C10": C10, "C15": C15, "C16": C16}
